@@ -2361,9 +2361,15 @@ def enumtables_family(tier, seed):
                ("map_absent_name", {"map": {"NO_SUCH": "zzz"}}, {})]
         return out
 
-    def attempt(f):
+    def attempt(f, *args, **kwargs):
+        # a factory whose signature has moved is a harness problem (exit 2), not a refusal of the class
+        import inspect
         try:
-            return {"fn": _cells(f())}
+            inspect.signature(f).bind(*args, **kwargs)
+        except TypeError as e:
+            return {"harness_error": f"{getattr(f, '__qualname__', f)}: {e}"}
+        try:
+            return {"fn": _cells(f(*args, **kwargs))}
         except CannotProvide as e:
             return {"refused": str(getattr(e, "message", e))[:120]}
         except Exception as e:  # noqa: BLE001
@@ -2377,17 +2383,17 @@ def enumtables_family(tier, seed):
             if not is_flag:
                 prov = ep.EnumNameProvider(gen)
                 emit({**base, "provider": "name", "cfg": gname, "oracle": odesc,
-                      "loader": attempt(lambda: prov._make_loader(cls)), "dumper": attempt(lambda: prov._make_dumper(cls))})
+                      "loader": attempt(prov._make_loader, cls), "dumper": attempt(prov._make_dumper, cls)})
             else:
                 for compound in (True, False):
                     prov = ep.FlagByListProvider(gen, allow_compound=compound)
                     emit({**base, "provider": "flag_list", "cfg": gname, "oracle": odesc, "allow_compound": compound,
-                          "loader": attempt(lambda: prov._make_loader(cls, strict_coercion=True)),
-                          "dumper": attempt(lambda: prov._make_dumper(cls))})
+                          "loader": attempt(prov._make_loader, cls, strict_coercion=True),
+                          "dumper": attempt(prov._make_dumper, cls)})
         if not is_flag:
             prov = ep.EnumExactValueProvider()
-            emit({**base, "provider": "exact", "cfg": "-", "loader": attempt(lambda: prov._make_loader(cls)),
-                  "dumper": attempt(lambda: prov._make_dumper(cls))})
+            emit({**base, "provider": "exact", "cfg": "-", "loader": attempt(prov._make_loader, cls),
+                  "dumper": attempt(prov._make_dumper, cls)})
             # enum_by_value: the factories get stand-ins for the loader / dumper of the value type (never called)
             import inspect
             vt = next((b for b in (int, str) if issubclass(cls, b)), int)
@@ -2405,7 +2411,14 @@ def enumtables_family(tier, seed):
             rec = {**base, "provider": "value", "cfg": vt.__name__}
             for side, stub in (("loader", value_loader_stub), ("dumper", value_dumper_stub)):
                 try:
-                    fn = call_with(getattr(vprov, "_make_" + side), enum=cls, value_loader=value_loader_stub, value_dumper=value_dumper_stub)
+                    factory = getattr(vprov, "_make_" + side)
+                    avail = dict(enum=cls, value_loader=value_loader_stub, value_dumper=value_dumper_stub)
+                    try:
+                        inspect.signature(factory).bind(**{k: v for k, v in avail.items() if k in inspect.signature(factory).parameters})
+                    except TypeError as e:
+                        rec[side] = {"harness_error": f"EnumValueProvider._make_{side}: {e}"}
+                        continue
+                    fn = call_with(factory, **avail)
                     rec[side] = {"is_value_codec": fn is stub,
                                  "holds_value_codec": any(c.cell_contents is stub for c in (getattr(fn, "__closure__", None) or ())
                                                           if _cell_filled(c))}
@@ -2414,7 +2427,7 @@ def enumtables_family(tier, seed):
             emit(rec)
         else:
             prov = ep.FlagByExactValueProvider()
-            emit({**base, "provider": "flag_exact", "cfg": "-", "loader": attempt(lambda: prov._make_loader(cls))})
+            emit({**base, "provider": "flag_exact", "cfg": "-", "loader": attempt(prov._make_loader, cls)})
 
 
 def outonly_family(tier, seed):
